@@ -15,7 +15,7 @@ use core::ops::{Bound, RangeBounds};
 
 pub const CAP: usize = 4;
 /// longest string key (bytes) the model compares; longer keys are a reported bound violation
-pub const KEYLEN: usize = 4;
+pub const KEYLEN: usize = 8;
 
 /// Key comparison with concrete loop bounds (std's `str` comparison is a memcmp whose length CBMC
 /// does not fold: it unwinds to the bound on every lookup).
@@ -27,21 +27,22 @@ macro_rules! vkey_int {
 }
 vkey_int!(usize, u64, u32, u16, u8, i64, ());
 impl VKey for str {
+    /// Total order: by length first, then bytewise (bounded).  Any consistent total order is a legal
+    /// `HashMap` iteration order; equal-length keys longer than KEYLEN are a reported bound violation.
     fn vcmp(&self, o: &str) -> core::cmp::Ordering {
         let (a, b) = (self.as_bytes(), o.as_bytes());
-        assert!(a.len() <= KEYLEN && b.len() <= KEYLEN, "VERIF: bound exceeded: model map string key length");
+        if a.len() != b.len() {
+            return a.len().cmp(&b.len());
+        }
+        assert!(a.len() <= KEYLEN, "VERIF: bound exceeded: model map string key length");
         let mut i = 0;
         while i < KEYLEN {
-            if i < a.len() && i < b.len() {
-                if a[i] != b[i] {
-                    return a[i].cmp(&b[i]);
-                }
-            } else {
-                return a.len().cmp(&b.len());
+            if i < a.len() && a[i] != b[i] {
+                return a[i].cmp(&b[i]);
             }
             i += 1;
         }
-        a.len().cmp(&b.len())
+        core::cmp::Ordering::Equal
     }
 }
 impl VKey for String {
